@@ -34,6 +34,7 @@ type PQuery struct {
 }
 
 type Project struct {
+	RawSchema string // when set: the schema text as is (declarations one per line), instead of Tables / Enums
 	Suffix     []string // statements that follow all declarations (drops / alters of junk objects)
 	JunkTables []string
 	Engine     string
@@ -248,6 +249,16 @@ func (e PEnum) DDL() string {
 
 // SchemaDecls returns the declarations: enums first (tables depend on them), then tables
 func (p Project) SchemaDecls() (enums, tables []string) {
+	if p.RawSchema != "" {
+		for _, ln := range strings.Split(strings.TrimSpace(p.RawSchema), "\n") {
+			if strings.HasPrefix(ln, "CREATE TABLE") {
+				tables = append(tables, ln)
+			} else if strings.TrimSpace(ln) != "" {
+				enums = append(enums, ln)
+			}
+		}
+		return
+	}
 	for _, c := range p.Composites {
 		enums = append(enums, "CREATE TYPE "+c+" AS (x int, y int);")
 	}
@@ -264,6 +275,9 @@ func (p Project) SchemaDecls() (enums, tables []string) {
 }
 
 func (p Project) Schema() string {
+	if p.RawSchema != "" {
+		return p.RawSchema
+	}
 	e, t := p.SchemaDecls()
 	return strings.Join(append(append(e, t...), p.Suffix...), "\n") + "\n"
 }
